@@ -50,6 +50,8 @@ def cases(tier, seed):
                 g["nlevels"] = min(g["nlevels"], 2)
             if bf == 4:
                 g["nlevels"] = min(g["nlevels"], 3)
+        if i % 7 == 3:      # six-digit binary file numbers; five- and six-digit numbers at one level
+            g["file_id_base"] = [100000, "mixed"][(i // 7) % 2]
         if i % 5 == 2:      # very far from the origin: anything derived from geo_high - geo_low loses digits
             g["origin"] = [3.0e8, -7.0e8, 1.1e9]
         cs.append({"gen": g, "sel_seed": seed * 61 + i, "poison_covered": i % 4 == 1, "fmt": dict(ref_ratio_extra=rng.choice([0, 0, 1, 3]), trailing_blank=rng.random() < 0.7, close_blank=rng.random() < 0.3, floatfmt=rng.choice(["repr", "17g"]))})
